@@ -1052,7 +1052,7 @@ func (e *c34Env) analyse(fam, format string, s *PkgSpec, data []byte, res *c34Re
 			return
 		}
 		var req, want strings.Builder
-		withPax := 0
+		withPax, withBin := 0, 0
 		fmt.Fprintf(&req, "tarfile %d", len(es))
 		fmt.Fprintf(&want, "%d", len(es))
 		for _, en := range es {
@@ -1066,12 +1066,12 @@ func (e *c34Env) analyse(fam, format string, s *PkgSpec, data []byte, res *c34Re
 				why = "skipped-long-name"
 			case len(en.Uname) > 32 || len(en.Gname) > 32:
 				why = "skipped-long-owner"
-			case en.MTime < 0 || en.MTime >= 1<<33:
-				why = "skipped-mtime-range"
-			case en.Mode < 0 || en.Mode >= 1<<21:
-				why = fmt.Sprintf("skipped-mode-bits-beyond-octal-field-%o-type-%c", en.Mode, en.Type)
-			case en.Size >= 1<<33 || en.Uid < 0 || en.Gid < 0 || en.Uid >= 1<<21 || en.Gid >= 1<<21 || strings.ContainsRune(en.Name, 0):
+			case en.Mode < 0 || en.Uid < 0 || en.Gid < 0 || en.MTime < 0 || en.Size < 0 || strings.ContainsRune(en.Name, 0):
 				why = "skipped-field-range"
+			case en.Format != "GNU" && (en.Mode >= 1<<21 || en.Uid >= 1<<21 || en.Gid >= 1<<21 || en.MTime >= 1<<33 || en.Size >= 1<<33):
+				why = "skipped-number-beyond-octal-field"
+			case en.Mode >= 1<<56 || int64(en.Uid) >= 1<<56 || int64(en.Gid) >= 1<<56:
+				why = "skipped-number-beyond-binary-field"
 			case en.Format != "GNU" && !(c34ASCII(en.Name) && c34ASCII(en.Linkname) && c34ASCII(en.Uname) && c34ASCII(en.Gname)):
 				why = "skipped-non-ascii-name"
 			}
@@ -1105,10 +1105,16 @@ func (e *c34Env) analyse(fam, format string, s *PkgSpec, data []byte, res *c34Re
 			if len(keys) > 0 {
 				withPax++
 			}
+			if en.Mode >= 1<<21 || en.Uid >= 1<<21 || en.Gid >= 1<<21 || en.MTime >= 1<<33 || en.Size >= 1<<33 {
+				withBin++
+			}
 			fmt.Fprintf(&req, " %s %s %d %d %d %d %d %d %s %s %s %s %s", fl, wire.H(en.Name), en.Mode, en.Uid, en.Gid, en.Size, en.MTime, en.Type,
 				wire.H(en.Linkname), wire.H(en.Uname), wire.H(en.Gname), pax.String(), wire.H(string(en.Body)))
 			fmt.Fprintf(&want, " %s %s %d %d %d %d %d %d %s %s %s %s %d", fl, wire.H(en.Name), en.Mode, en.Uid, en.Gid, en.Size, en.MTime, en.Type,
 				wire.H(en.Linkname), wire.H(en.Uname), wire.H(en.Gname), pax.String(), len(en.Body))
+		}
+		if withBin > 0 {
+			res.TarBy[format+":"+which+":compared-with-binary-number-fields"]++
 		}
 		if withPax > 0 {
 			res.TarBy[format+":"+which+":compared-with-pax-records"]++
